@@ -302,21 +302,7 @@ func (self valSorter) Len() int {
 }
 
 func (self valSorter) Less(i, j int) bool {
-	switch self[i].Type().Kind() {
-	case reflect.String:
-		return strings.Compare(self[i].String(), self[j].String()) < 0
-	case reflect.Int:
-		return self[i].Int() < self[j].Int()
-	}
-	if i1, ok := self[i].Interface().(fmt.Stringer); ok {
-		i2 := self[j].Interface().(fmt.Stringer)
-		return strings.Compare(i1.String(), i2.String()) < 0
-	}
-	if i1, ok := self[i].Interface().(fmt.Stringer); ok {
-		i2 := self[j].Interface().(fmt.Stringer)
-		return strings.Compare(i1.String(), i2.String()) < 0
-	}
-	panic("not supported")
+	return reflectCompare(self[i], self[j])
 }
 
 func (self valSorter) Swap(i, j int) {
